@@ -53,7 +53,7 @@ partial def runChain : List String → Option String
   | ["chain.allowed", inv, prf, dlgs, now, args, hook] => do
     let table ← if dlgs == "-" then some [] else (dlgs.splitOn "#").mapM parseDlg
     let prf : List (Option Nat) ← if prf == "-" then some [] else
-      (prf.splitOn ".").mapM (fun s => if s == "x" || s.startsWith "v" then some none else (s.toNat?).map some)
+      (prf.splitOn ".").mapM (fun s => if s == "x" || s.startsWith "v" || s.startsWith "e" || s.startsWith "n" then some none else (s.toNat?).map some)
     let now ← now.toInt?
     let args := argsToIPLD (← nodeFromStr args)
     match inv.splitOn "," with
